@@ -319,6 +319,13 @@ def dynamo_traces(rep: Report, rng: random.Random, variants: List[int]) -> List[
     for v in variants:
         torch.manual_seed(v)
         net = Net(v)
+        # a TRAINED source model: every parameter that is not a Linear / Embedding one has left its initial value (LayerNorm shift
+        # and gain, RMSNorm gain, conv weight and bias, the positional table) -- unit_scale must carry these over untouched
+        reinit = {f"{n}.{pn}" for n, m_ in net.named_modules() if isinstance(m_, (nn.Linear, nn.Embedding)) for pn, _ in m_.named_parameters(recurse=False)}
+        with torch.no_grad():
+            for k, p_ in net.named_parameters():
+                if k not in reinit:
+                    p_.add_(torch.randn(p_.shape) * 0.5)
         orig_state = {k: t.clone() for k, t in net.state_dict().items()}
         us = unit_scale(net)
         seen: List[Dict[str, Any]] = []
@@ -360,6 +367,11 @@ def dynamo_traces(rep: Report, rng: random.Random, variants: List[int]) -> List[
         for k, t in net.state_dict().items():
             if not torch.equal(t, orig_state[k]):
                 rep.violation(f"unit_scale modified the original module's {k}", {"variant": v, "tensor": k}, key="original_modified")
+        us_state = us.state_dict()
+        for k, t in orig_state.items():
+            if k not in reinit and (k not in us_state or not torch.equal(us_state[k], t)):
+                rep.violation(f"unit_scale changed {k} in the returned copy (only Linear / Embedding parameters are re-initialised; everything else is carried over)",
+                              {"variant": v, "tensor": k}, key="other_parameter_changed")
     return traces
 
 
